@@ -21,6 +21,21 @@ Definition expand_run (r : range) (e : entry) (acc : list (N * (N * N))) : list 
                     (i + 1, if in_range r i then aset i (e_off e, e_len e) a else a))
          (e_id e, acc)).
 
+(** the loop over the entries of one directory; [rec] reads the leaf a pointer entry refers to *)
+Fixpoint walk_entries (rec : N -> N -> list (N * (N * N)) -> outcome (list (N * (N * N))))
+         (leaf_off : N) (r : range) (l : list entry) (acc : list (N * (N * N))) : outcome (list (N * (N * N))) :=
+  match l with
+  | [] => Ok acc
+  | e :: rest =>
+    if e_run e =? 0 then
+      (* skip leaf directory, if it starts after range *)
+      if range_end_inc r <? e_id e then walk_entries rec leaf_off r rest acc else
+      do lo <- cadd64 leaf_off (e_off e);
+      do acc' <- rec lo (e_len e) acc;
+      walk_entries rec leaf_off r rest acc'
+    else walk_entries rec leaf_off r rest (expand_run r e acc)
+  end.
+
 Section WithCtx.
   Context (cx : ctx).
 
@@ -31,18 +46,7 @@ Section WithCtx.
     | O => Err EInvalid                       (* "Leaf directories are nested too deeply." *)
     | S f =>
       do es <- decode_dir cx c (section img dir_off dir_len);
-      let range_end := range_end_inc r in
-      (fix go (l : list entry) (acc : list (N * (N * N))) : outcome (list (N * (N * N))) :=
-         match l with
-         | [] => Ok acc
-         | e :: rest =>
-           if e_run e =? 0 then
-             if range_end <? e_id e then go rest acc else
-             do lo <- cadd64 leaf_off (e_off e);
-             do acc' <- read_dir_rec f c img lo (e_len e) leaf_off r acc;
-             go rest acc'
-           else go rest (expand_run r e acc)
-         end) es acc
+      walk_entries (fun lo len a => read_dir_rec f c img lo len leaf_off r a) leaf_off r es acc
     end.
 
   Definition depth_fuel_of (d : option N) : nat :=
